@@ -1,5 +1,7 @@
 import AL.Model.Parser
 import AL.Spec.ExprLexical
+import AL.Lemmas.LexerStream
+import AL.Lemmas.LexerJson
 /-
   C04 (lexical half) — statements about the lexer model; proved theorems are added below by name.
 -/
@@ -48,5 +50,219 @@ def lex_positions_statement : Prop :=
   ∀ (src : List Sym) (ts : List Tok) (off : Nat), lexExpression src = .ok (ts, off) →
     (∀ s ∈ src, s.w = 1 ∧ s.r ≠ 10 ∧ s.bad = false) →
     ∀ t ∈ ts, t.line = 1 ∧ t.col = t.off + 1 ∧ (src.drop t.off).take t.val.length = t.val
+
+/-! ## Proofs -/
+
+/-- concrete sources for the examples -/
+def ascii (s : String) : List Sym := s.toList.map fun c => ⟨c.toNat, 1, false⟩
+def demo : List Sym := ascii "a.b-c == 'it''s' && 0x1F >= -1.5e-3 }}"
+/-- U+FEFF (3 bytes) followed by `a` -/
+def bomA : List Sym := [⟨0xFEFF, 3, false⟩, ⟨97, 1, false⟩]
+
+deriving instance DecidableEq for Except
+
+/-- what the lexer returns on `demo`: kinds, byte offsets of the tokens, bytes consumed -/
+example : (lexExpression demo).toOption.map (fun r => (r.1.map (·.kind), r.1.map (·.off), r.2)) =
+    some ([.ident, .dot, .ident, .eq, .string, .and, .int, .greaterEq, .float, .end],
+          [0, 1, 2, 6, 9, 17, 20, 25, 28, 36], 38) := by decide +kernel
+
+/-! ### (g) -/
+
+/-- (g) as stated is FALSE: a leading byte-order mark U+FEFF is skipped by `text/scanner`, but the first
+token's text is `src[start.Offset:…]` with `start.Offset = 0`, so the BOM becomes part of the first token
+(unless whitespace follows it). Witness: the source `U+FEFF a`: the first token is IDENT with text
+`"\uFEFFa"`, no error recorded yet, and `U+FEFF` is not an identifier start. -/
+theorem lex_spelling_counterexample : ¬ lex_spelling_statement := by
+  intro h
+  have hs := h bomA ⟨⟨.ident, bomA, 0, 1, 1⟩, none, 4⟩ (by decide +kernel) rfl
+  obtain ⟨c, cs, h1, h2, -⟩ := hs
+  simp [runes, bomA] at h1
+  obtain ⟨rfl, -⟩ := h1
+  simp [isAlpha] at h2
+
+example : tokens bomA =
+    [⟨⟨.ident, bomA, 0, 1, 1⟩, none, 4⟩,
+     ⟨⟨.end, [], 4, 1, 3⟩, some ⟨.unexpectedEOF, ⟨1, 3, 4⟩⟩, 4⟩] := by decide +kernel
+
+/-- (g), corrected and strengthened: for a source that does not start with a BOM, *every* token of the
+stream (also those produced after an error was recorded: errors never influence which characters go into a
+token, and the pseudo-token returned on errors is the empty END) is spelled as the lexical grammar says;
+moreover an END token without recorded error is spelled `}}` (the empty END always carries an error). -/
+def lex_spelling_statement' : Prop :=
+  ∀ (src : List Sym) (a : ATok), ¬ StartsWithBOM src → a ∈ tokens src →
+    Spelling a.tok.kind a.tok.val ∧ (a.tok.kind = .end → a.err = none → runes a.tok.val = [125, 125])
+
+theorem lex_spelling' : lex_spelling_statement' := by
+  intro src a hb ha
+  exact lexAll_spelling _ _ (lexInit_buf hb) a ha
+
+example : ¬ StartsWithBOM demo ∧ (tokens demo).length = 10 ∧ ∀ a ∈ tokens demo, a.err = none := by
+  refine ⟨?_, by decide +kernel, by decide +kernel⟩
+  rintro ⟨c, rest, h, hc, -⟩
+  have : (demo.head?.map (·.r)) = some 97 := by decide +kernel
+  rw [h] at this; simp [hc] at this
+
+/-- the tokens `LexExpression` returns on success are spelled according to the grammar, the last one is `}}` -/
+theorem lexExpression_spelling (src : List Sym) (ts : List Tok) (off : Nat) (hb : ¬ StartsWithBOM src)
+    (h : lexExpression src = .ok (ts, off)) :
+    ∀ t ∈ ts, Spelling t.kind t.val ∧ (t.kind = .end → runes t.val = [125, 125]) := by
+  intro t ht
+  rcases go_mem _ _ _ _ h t ht with h1 | ⟨a, ha, rfl, hae⟩
+  · simp at h1
+  · have := lex_spelling' src a hb ha
+    exact ⟨this.1, fun hk => this.2 hk hae⟩
+
+/-! ### (h) -/
+
+theorem lex_well_ended : lex_well_ended_statement := by
+  intro src
+  exact lexAll_wellEnded _ _ (by have := lexInit_remaining src; omega)
+
+example : WellEndedL (tokens demo) ∧ ((tokens demo).map (·.tok.kind)).getLast? = some .end :=
+  ⟨lex_well_ended demo, by decide +kernel⟩
+
+/-! ### (j) -/
+
+theorem interleave_eq_weave : ∀ (gs : List (List Sym)) (ts : List Tok), interleave gs ts = weave gs ts
+  | [], _ => by simp [interleave, weave]
+  | _ :: _, [] => by simp [interleave, weave]
+  | g :: gs, t :: ts => by simp [interleave, weave, interleave_eq_weave gs ts]
+
+theorem lex_tiles : lex_tiles_statement := by
+  intro src ts off h hbom
+  have hb : ¬ StartsWithBOM src := by
+    rintro ⟨c, rest, rfl, hc, -⟩
+    simp [hc] at hbom
+  obtain ⟨gaps, toks, h1, h2, h3, h4, h5⟩ :=
+    go_tiles (src.length + 2) (lexInit src) [] [] ts off (LInv.init src) (lexInit_buf hb)
+      (by have := lexInit_remaining src; omega) h
+  simp only [List.nil_append] at h1 h4 h5
+  subst h1
+  refine ⟨gaps, h2, h3, ?_, ?_⟩
+  · rw [interleave_eq_weave]; exact h4
+  · rw [interleave_eq_weave]; exact h5
+
+/-- the gaps for `demo`: one space before `==`, `'it''s'`, `&&`, `0x1F`, `>=`, `-1.5e-3`, `}}` -/
+example : ∃ ts, lexExpression demo = .ok (ts, 38) ∧ demo.head?.map (·.r) ≠ some 0xFEFF ∧
+    interleave [[], [], [], ascii " ", ascii " ", ascii " ", ascii " ", ascii " ", ascii " ", ascii " "] ts = demo := by
+  refine ⟨(tokens demo).map (·.tok), by decide +kernel, by decide +kernel, by decide +kernel⟩
+
+/-- without the hypothesis the statement fails: in `U+FEFF ␠ a }}` the BOM is dropped together with the blank -/
+example : ∃ ts, lexExpression (⟨0xFEFF, 3, false⟩ :: ascii " a }}") = .ok (ts, 8) ∧ ts.map (·.val) = [ascii "a", ascii "}}"] :=
+  ⟨(tokens (⟨0xFEFF, 3, false⟩ :: ascii " a }}")).map (·.tok), by decide +kernel, by decide +kernel⟩
+
+/-! ### (k) -/
+
+theorem lex_positions : lex_positions_statement := by
+  intro src ts off h hflat t ht
+  have hf : Flat src := hflat
+  obtain ⟨d, ⟨r, hpre⟩, hoff, hpos⟩ :=
+    go_placed (src.length + 2) (lexInit src) [] [] ts off (LInv.init src)
+      (by have := lexInit_remaining src; omega) (by simp) h t ht
+  have hd : Flat d := by
+    apply Flat.of_append_left (b := t.val ++ r); rw [← List.append_assoc, hpre]; exact hf
+  have hoff' : t.off = d.length := by rw [hoff, hd.bytes_eq]
+  obtain ⟨hl, hc⟩ := hpos hf
+  refine ⟨hl, by omega, ?_⟩
+  rw [hoff', ← hpre, List.append_assoc, List.drop_left, List.take_left]
+
+example : ∃ ts, lexExpression demo = .ok (ts, 38) ∧ (∀ s ∈ demo, s.w = 1 ∧ s.r ≠ 10 ∧ s.bad = false) ∧
+    ts.map (fun t => (t.line, t.col, t.off)) =
+      [(1,1,0), (1,2,1), (1,3,2), (1,7,6), (1,10,9), (1,18,17), (1,21,20), (1,26,25), (1,29,28), (1,37,36)] :=
+  ⟨(tokens demo).map (·.tok), by decide +kernel, by decide +kernel, by decide +kernel⟩
+
+/-- general form of (k) without the one-line-ASCII hypothesis: `off` is the byte length of the text in front
+of the token and the token text is the source text at that place -/
+theorem lex_offsets (src : List Sym) (ts : List Tok) (off : Nat) (h : lexExpression src = .ok (ts, off)) :
+    ∀ t ∈ ts, ∃ d, d ++ t.val <+: src ∧ t.off = bytes d := by
+  intro t ht
+  obtain ⟨d, hpre, hoff, -⟩ :=
+    go_placed (src.length + 2) (lexInit src) [] [] ts off (LInv.init src)
+      (by have := lexInit_remaining src; omega) (by simp) h t ht
+  exact ⟨d, hpre, hoff⟩
+
+/-! ### (m) completeness of `Next` for one token -/
+
+/-- (m) If, after blanks `gap`, the unread input starts with a correctly spelled token `val` of kind `k`
+and the character after it cannot extend the token (`extendsTok`: an identifier character after an
+identifier, an alphanumeric character after a number -- which would make the lexer reject the number --,
+`.` after an integer, `'` after a string, `=` after `!`, `<`, `>`), then `Next` returns exactly that token,
+leaves exactly `rest` unread, and records no error if none was recorded before and the characters it reads
+(up to and including the look-ahead after the token) are neither NUL nor invalid UTF-8. -/
+def lex_complete_statement : Prop :=
+  ∀ (st : LexState) (k : TokKind) (gap val rest : List Sym),
+    Spelling k val → val ≠ [] → st.buf = [] → st.scan.unread = gap ++ val ++ rest →
+    (∀ s ∈ gap, isWhitespace s.r = true) → extendsTok k (nxt rest) = false →
+    (lexNext st).1.kind = k ∧ (lexNext st).1.val = val ∧
+    (lexNext st).2.scan.unread = rest ∧ (lexNext st).2.buf = [] ∧
+    (st.err = none → (∀ d ∈ (gap ++ val ++ rest.head?.toList).tail, Clean d) → (lexNext st).2.err = none)
+
+theorem lex_complete : lex_complete_statement :=
+  fun _ _ _ _ _ hs hne hb hu hg hext => lexNext_complete' hs hne hb hu hg hext
+
+/-- `  abc-1)`: two blanks, the identifier `abc-1`, then `)` -/
+example : let st := lexInit (ascii "  abc-1)")
+    Spelling .ident (ascii "abc-1") ∧ st.buf = [] ∧ st.scan.unread = ascii "  " ++ ascii "abc-1" ++ ascii ")" ∧
+    extendsTok .ident (nxt (ascii ")")) = false ∧ st.err = none ∧
+    (lexNext st).1 = ⟨.ident, ascii "abc-1", 2, 1, 3⟩ ∧ (lexNext st).2.err = none := by
+  refine ⟨⟨97, [98, 99, 45, 49], by decide +kernel, .inl (by decide +kernel), by decide +kernel⟩,
+    by decide +kernel, by decide +kernel, by decide +kernel, by decide +kernel, by decide +kernel, by decide +kernel⟩
+
+/-- the side condition is needed: `1.` is not INT `1` followed by `.` but an error, `a-` is one identifier -/
+example : lexExpression (ascii "1.a }}") = .error (⟨.unexpected (some 97) .fracPart, ⟨1, 3, 2⟩⟩, 2) ∧
+    (lexExpression (ascii "a-1 }}")).toOption.map (fun r => r.1.map (·.val)) = some [ascii "a-1", ascii "}}"] :=
+  ⟨by decide +kernel, by decide +kernel⟩
+
+/-! ### (l) the JSON-number gap -/
+
+example : lexExpression (ascii "1e+5 }}") = .error (⟨.unexpected (some 43) .expPart, ⟨1, 3, 2⟩⟩, 2) := by
+  decide +kernel
+example : lexExpression (ascii "1e05 }}") = .error (⟨.unexpected (some 53) .afterNumber, ⟨1, 4, 3⟩⟩, 3) := by
+  decide +kernel
+example : (lexExpression (ascii "-1.50E-0 }}")).toOption.map (fun r => r.1.map (fun t => (t.kind, t.val))) =
+    some [(.float, ascii "-1.50E-0"), (.end, ascii "}}")] := by decide +kernel
+
+/-- (l) Exactly two kinds of RFC 8259 numbers (`JsonParts`: `-? (0|[1-9][0-9]*) (\.[0-9]+)? ([eE][+-]?[0-9]+)?`)
+are not numbers of the expression syntax: those with a `+` sign in the exponent (`1e+5`) and those whose
+exponent has a leading zero followed by more digits (`1e05`). -/
+def json_gap_statement : Prop :=
+  ∀ (p : JsonParts) (l : List Sym), p.WF → runes l = p.spell → (∀ d ∈ l, Clean d) →
+    ((∃ ts off, lexExpression (l ++ ascii " }}") = .ok (ts, off)) ↔ ¬ p.expPlus ∧ ¬ p.expLeadingZero)
+
+theorem json_gap : json_gap_statement := by
+  intro p l hp hl hcl
+  constructor
+  · rintro ⟨ts, off, hok⟩
+    refine ⟨fun h => ?_, fun h => ?_⟩
+    · obtain ⟨e, he⟩ := json_gap_error hp hl (.inl h) (ascii " }}"); rw [he] at hok; cases hok
+    · obtain ⟨e, he⟩ := json_gap_error hp hl (.inr h) (ascii " }}"); rw [he] at hok; cases hok
+  · rintro ⟨h1, h2⟩
+    obtain ⟨ts, off, h, -⟩ := json_ok hp hl h1 h2 hcl
+    exact ⟨ts, off, h⟩
+
+/-- the rejected forms are rejected whatever follows the number … -/
+theorem json_gap_rejected (p : JsonParts) (l rest : List Sym) (hp : p.WF) (hl : runes l = p.spell)
+    (h : p.expPlus ∨ p.expLeadingZero) : ∃ e, lexExpression (l ++ rest) = .error e :=
+  json_gap_error hp hl h rest
+
+/-- … and all other JSON numbers are lexed as a single INT (no fraction, no exponent) or FLOAT token -/
+theorem json_gap_accepted (p : JsonParts) (l : List Sym) (hp : p.WF) (hl : runes l = p.spell)
+    (h1 : ¬ p.expPlus) (h2 : ¬ p.expLeadingZero) (hcl : ∀ d ∈ l, Clean d) :
+    ∃ ts off, lexExpression (l ++ ascii " }}") = .ok (ts, off) ∧
+      ts.map (fun t => (t.kind, t.val)) = [(p.kind, l), (.end, ascii "}}")] :=
+  json_ok hp hl h1 h2 hcl
+
+/-- `1e+5` and `1e05` are JSON numbers of the two rejected forms -/
+example : (⟨[], [49], [], [101], [43], [53]⟩ : JsonParts).WF ∧
+    runes (ascii "1e+5") = (⟨[], [49], [], [101], [43], [53]⟩ : JsonParts).spell ∧
+    (⟨[], [49], [], [101], [43], [53]⟩ : JsonParts).expPlus :=
+  ⟨⟨.inl rfl, .inr ⟨49, [], rfl, by decide, by decide, by simp⟩, .inl rfl,
+    .inr ⟨.inl rfl, .inr (.inl rfl), by simp, by simp [isNum]⟩⟩, by decide +kernel, rfl⟩
+
+example : (⟨[], [49], [], [101], [], [48, 53]⟩ : JsonParts).WF ∧
+    runes (ascii "1e05") = (⟨[], [49], [], [101], [], [48, 53]⟩ : JsonParts).spell ∧
+    (⟨[], [49], [], [101], [], [48, 53]⟩ : JsonParts).expLeadingZero :=
+  ⟨⟨.inl rfl, .inr ⟨49, [], rfl, by decide, by decide, by simp⟩, .inl rfl,
+    .inr ⟨.inl rfl, .inl rfl, by simp, by simp [isNum]⟩⟩, by decide +kernel, ⟨53, [], rfl⟩⟩
 
 end AL.C04
